@@ -142,6 +142,12 @@ theorem cut_volume_caseB (x y z : V3 R) (s t : R) :
     tet6 (z + (x - z) * s) x (x + (y - x) * t) + tet6 z (z + (x - z) * s) (x + (y - x) * t) + tet6 z (x + (y - x) * t) y
       = tet6 x y z := cut_volume_B x y z s t
 
+/-- `face_side_wrt_plane` is true exactly for the faces whose centroid lies strictly on the side the normal points to:
+    those are removed from daughter 1 and kept by daughter 2 (`stage_order_as_modelled`) -/
+theorem face_side_spec (p1 p2 p3 p n : V3 R) :
+    Gen.Division.faceSide p1 p2 p3 p n = true ↔ 0 < V3.dot ((p1 + p2 + p3) / (3 : R) - p) n := by
+  simp only [Gen.Division.faceSide, lit_zero, lit_three, decide_eq_true_eq]
+
 /-- the point `find_edge_plane_intersection` returns lies on the plane … -/
 theorem edge_plane_on_plane {e1 e2 p n q : V3 R} (h : Gen.Division.edgePlaneIntersection e1 e2 p n = some q) :
     V3.dot n (q - p) = 0 := Division.edge_plane_on_plane h
